@@ -62,6 +62,15 @@ def nontrivial(case):
 def gen_cases(tier, seed):
     quick = tier == 'quick'
     small = C.rule_pool() + C.universe_rules(2)
+    # literal text that would mean something to a formatting mini-language (percent-encoded octets, %s, %%, braces kept out
+    # because '{' opens a wildcard in rule syntax): literals must come back verbatim
+    small += [
+        [['L', '/caf%C3%A9/'], ['W', 'x', None, None]],
+        [['L', '/a%20b/'], ['W', 'n', 'int', None], ['L', '/c']],
+        [['L', '/x%%y/'], ['W', 'v', None, None]],
+        [['L', '/fmt%s/'], ['W', 'u', None, None], ['L', '/%d']],
+        [['L', '/'], ['W', 'p', 'int', None], ['L', '%/of/'], ['W', 'w', None, None]],
+    ]
     rnd = random.Random(seed)
     for _ in range(300 if quick else 6000):
         small.append(C.random_rule(rnd))
